@@ -271,6 +271,48 @@ pub fn model_constants() -> Vec<(&'static str, Vec<u64>)> {
     out
 }
 
+/// The type-code tables AS COMPILED, probed on `codes`: for every code that is accepted,
+/// (code, type id, winternitz, chains, checksum shift) through `LmotsAlgorithm::from(code)
+/// .construct_parameter()` and through `LmotsAlgorithm::get_from_type(code)`, and
+/// (code, type id, tree height) through the two LMS counterparts.
+#[allow(clippy::type_complexity)]
+pub fn type_code_tables<H: HashChain>(
+    codes: &[u32],
+) -> (Vec<[u64; 5]>, Vec<[u64; 5]>, Vec<[u64; 3]>, Vec<[u64; 3]>) {
+    use crate::lms::parameters::LmsAlgorithm;
+    let ots = |p: lm_ots::parameters::LmotsParameter<H>, c: u32| {
+        [
+            c as u64,
+            p.get_type_id() as u64,
+            p.get_winternitz() as u64,
+            p.get_num_winternitz_chains() as u64,
+            p.get_checksum_left_shift() as u64,
+        ]
+    };
+    let lms = |p: crate::lms::parameters::LmsParameter<H>, c: u32| {
+        [c as u64, p.get_type_id() as u64, p.get_tree_height() as u64]
+    };
+    let mut a = Vec::new();
+    let mut b = Vec::new();
+    let mut c = Vec::new();
+    let mut d = Vec::new();
+    for code in codes {
+        if let Some(p) = LmotsAlgorithm::from(*code).construct_parameter::<H>() {
+            a.push(ots(p, *code));
+        }
+        if let Some(p) = LmotsAlgorithm::get_from_type::<H>(*code) {
+            b.push(ots(p, *code));
+        }
+        if let Some(p) = LmsAlgorithm::from(*code).construct_parameter::<H>() {
+            c.push(lms(p, *code));
+        }
+        if let Some(p) = LmsAlgorithm::get_from_type::<H>(*code) {
+            d.push(lms(p, *code));
+        }
+    }
+    (a, b, c, d)
+}
+
 fn assert_zeroize_on_drop<T: ZeroizeOnDrop>() {}
 
 /// For every secret-bearing type: an instance filled with non-zero secret bytes is zeroized;
